@@ -726,6 +726,56 @@ def known(ctx):
         ctx.violation('after a failed write and a re-entrant connect() the new socket is not subscribed with READ|WRITE|ERROR '
                       '(fixed finding FX-C14-2 is back)', {'kind': 'redial_subscription'}, found_input=True)
 
+    # FX-C13-4: nothing escapes poll() when a handler takes another ready descriptor of the same round out of the poller
+    pp = poller_round_problems()
+    ctx.monitor['poller_round_witness'] = {'problems': pp, 'pollers': ['poll', 'select'], 'descriptors_per_round': [2, 3]}
+    if pp:
+        ctx.violation('C13 monitor on the implementation: ' + pp[0], {'kind': 'poller_round', 'problems': pp}, found_input=True)
+
+
+def poller_round_problems():
+    """FX-C13-4.  Two descriptors are ready in one poll round and the handler that runs first takes the other one out
+    of the poller (what TcpConnection.disconnect() does from a callback: a corrupt frame on A whose onDisconnected drops
+    B, or a send to a peer that has reset).  Nothing may escape poll(), for either poller type and either order, and
+    the removed descriptor is not dispatched afterwards.  Real pollers on real socket pairs."""
+    import socket
+    from pysyncobj.poller import createPoller, POLL_EVENT_TYPE
+    problems = []
+    for kind in ('poll', 'select'):
+        for n in (2, 3):
+            p = createPoller(kind)
+            pairs = [socket.socketpair() for _ in range(n)]
+            fds = [a.fileno() for a, _ in pairs]
+            seen, gone = [], set()
+
+            def handler(descr, event):
+                if descr in gone:
+                    return                      # TcpConnection ignores events of a descriptor that is not its own any more
+                seen.append(descr)
+                for other in fds:
+                    if other != descr and other not in gone:
+                        p.unsubscribe(other)
+                        gone.add(other)
+            try:
+                for fd in fds:
+                    p.subscribe(fd, handler, POLL_EVENT_TYPE.READ | POLL_EVENT_TYPE.ERROR)
+                for _, b in pairs:
+                    b.send(b'x')
+                for rnd in (1, 2):
+                    try:
+                        p.poll(0.0)
+                    except Exception as e:
+                        problems.append('%s poller, %d descriptors ready in one round, the first handler unsubscribes the '
+                                        'others: %r escaped poll() (round %d)' % (kind, n, e, rnd))
+                        break
+                if len(set(seen)) != 1 and not problems:
+                    problems.append('%s poller: handlers ran for descriptors %r, expected exactly one descriptor' % (kind, seen))
+            finally:
+                for a, b in pairs:
+                    a.close()
+                    b.close()
+    return problems
+
 
 def search(ctx):
     """Failing-input search after a broken obligation / divergence: more random pipe cases under the monitor only."""
@@ -758,7 +808,7 @@ def replay(ctx, data):
             print('VIOLATION property=C13 replay=(replayed)')
             return 1
         return 0
-    if data.get('kind') == 'd12':
+    if data.get('kind') in ('d12', 'poller_round', 'write_interest', 'redial_subscription'):
         known(ctx)
         return 1 if ctx.violations else 0
     print('nothing to replay for', data.get('kind'))
